@@ -46,6 +46,9 @@ def correspondence(ctx, batch):
             if n <= 4 or rng.random() < 0.2:
                 inputs, kedges = table_inputs(n, edges)
                 stages.stage_pipeline(batch, inputs, registry, [stages.TableCmp(kedges)], parts=("merge", "replaces"))
+    for inputs, cmps in boundary_cases():
+        stages.stage_pipeline(batch, inputs, registry, cmps, parts=("merge", "replaces"))
+        ctx.count("boundary_cases")
     for _ in range(ctx.n(80, 1500)):
         stages.stage_pipeline(batch, common.gen_inputs(rng, styled_p=0.1), registry, threshold_cmps(rng),
                               parts=("process", "merge", "replaces"))
@@ -82,6 +85,43 @@ def threshold_sample(rng):
         ks = base[drop:] + ["x%d_%d" % (j, i) for i in range(extra)]
         out["h%d" % j] = {k: 1 for k in ks}
     return out
+
+
+PERCENTS = [32, 50, 55, 56, 60, 68, 69, 70, 71, 75, 80, 90, 92, 95, 100, 33, 10, 1]
+
+
+def boundary_cases():
+    """two sibling models whose shared/union key ratio is exactly on, just below and just above a percent threshold, and
+    whose shared key count is exactly n, n-1 for a number threshold — every threshold, not a sample"""
+    from math import gcd
+    for n in PERCENTS:
+        cmp_ = [ModelFieldsPercentMatch(float(str(n)) / 100)]
+        u0 = 100 // gcd(n, 100)
+        for u in (u0, 2 * u0):
+            if u > 100:
+                continue
+            shared = n * u // 100
+            for d in (0, -1, 1):
+                k = shared + d
+                if not 1 <= k <= u:
+                    continue
+                a = {"f%d" % i: 1 for i in range(u)}
+                b = {"f%d" % i: 1 for i in range(k)}
+                yield [("Root", [{"ha": a, "hb": b}])], cmp_
+                # the same ratio with keys missing on both sides
+                if k >= 2 and u - k >= 1:
+                    a2 = {"f%d" % i: 1 for i in range(u - 1)}
+                    b2 = {"f%d" % i: 1 for i in list(range(k)) + [u - 1]}
+                    yield [("Root", [{"ha": a2, "hb": b2}])], cmp_
+    for n in (1, 2, 3, 4, 5, 10, 25):
+        for k in (n - 1, n, n + 1):
+            if k < 1:
+                continue
+            a = {"f%d" % i: 1 for i in range(k)}
+            a.update({"a%d" % i: 1 for i in range(3 * k + 2)})
+            b = {"f%d" % i: 1 for i in range(k)}
+            b.update({"b%d" % i: 1 for i in range(3 * k + 2)})
+            yield [("Root", [{"ha": a, "hb": b}])], [ModelFieldsNumberMatch(n)]
 
 
 def holds(c, fa, fb):
@@ -207,6 +247,8 @@ def falsify(ctx):
                 continue
             inputs, kedges = table_inputs(n, edges)
             cases.append((inputs, [stages.TableCmp(kedges)], bool(edges)))
+    for inputs, cmps in boundary_cases():
+        cases.append((inputs, cmps, True))
     for _ in range(ctx.n(150, 3000)):
         cases.append(([("Root", [threshold_sample(rng)])], threshold_cmps(rng), True))
     for _ in range(ctx.n(100, 2000)):
